@@ -11,3 +11,4 @@ for pid in "$@"; do
   echo "exit-lines for $pid above"
 done
 git checkout -- . && git status --short | head -3
+( cd /verif && /venv/bin/python translate/py2v.py coq/Gen >/dev/null 2>&1 )
